@@ -180,7 +180,9 @@ func TestVerifC05(t *testing.T) {
 		d2.ID, d2.Name, d2.TopologyHash, d2.NodeCount = "DECOY-samefuzzy", "decoy2", "0123456789abcdef0123456789abcdef", sig.NodeCount+9
 		d3 := detection.Signature{ID: "DECOY-unrelated", Name: "decoy3", TopologyHash: "fedcba9876543210fedcba9876543210", FuzzyHash: "B9L9BR9P9R9", EntropyScore: 7, EntropyTolerance: 0.5,
 			IdentifyingFeatures: detection.IdentifyingFeatures{RequiredCalls: []string{"syscall.Ptrace"}}}
-		decoys = append(decoys, d1, d2, d3)
+		d4 := sig
+		d4.ID, d4.Name, d4.EntropyScore = "AAA-samehash-near-entropy", "decoy4", sig.EntropyScore+0.2
+		decoys = append(decoys, d1, d2, d3, d4)
 		for _, content := range []string{"alone", "with-decoys"} {
 			var all []detection.Signature
 			if content == "with-decoys" {
@@ -188,7 +190,7 @@ func TestVerifC05(t *testing.T) {
 			}
 			all = append(all, sig)
 			if content == "with-decoys" {
-				all = append(all, decoys[0])
+				all = append(all, decoys[0], decoys[3])
 			}
 			dbn++
 			pebbledb.VerifFS = vfs.NewMem()
